@@ -21,6 +21,8 @@ pub struct RepRun {
     pub path: Option<std::path::PathBuf>,
     pub stats: HashMap<String, u64>,
     stale_undo: Option<Vec<Operation>>,
+    /// the generator just made a task look expirable (or nearly so): expire before it changes again
+    expire_next: bool,
     /// this case may commit operations with untrue old values / invalid operations
     pub wild: bool,
 }
@@ -128,8 +130,14 @@ impl RepRun {
 
     /// a replica on the SQLite database in `path` (created if missing), or in memory
     pub fn new_at(path: Option<std::path::PathBuf>) -> RepRun {
+        RepRun::new_at_mode(path, false)
+    }
+
+    /// as `new_at`; `read_only`: the database must exist and is opened with `AccessMode::ReadOnly`
+    pub fn new_at_mode(path: Option<std::path::PathBuf>, read_only: bool) -> RepRun {
         let chain = new_chain(1, snap_fmt);
         let st = match &path {
+            Some(p) if read_only => AnyStorage::Sql(block_on(SqliteStorage::new(p, AccessMode::ReadOnly, false)).unwrap()),
             Some(p) => AnyStorage::Sql(block_on(SqliteStorage::new(p, AccessMode::ReadWrite, true)).unwrap()),
             None => AnyStorage::Mem(InMemoryStorage::new()),
         };
@@ -142,6 +150,7 @@ impl RepRun {
             path,
             stats: HashMap::new(),
             stale_undo: None,
+            expire_next: false,
             wild: false,
         }
     }
@@ -215,7 +224,11 @@ impl RepRun {
                 // the action `rest` with the k-th storage call from now failing (the transaction is
                 // abandoned), then a restart: what is stored is the state before the action, after it,
                 // or — for actions made of two transactions — in between
-                let k: usize = k.parse().unwrap_or(1);
+                // `<k>n`: no restart — the same replica object goes on after the failed call (what an
+                // abandoned transaction wrote must be invisible to the handle that abandoned it, too)
+                let keep = k.ends_with('n');
+                let ktok = k.to_string();
+                let k: usize = k.trim_end_matches('n').parse().unwrap_or(1);
                 let rest: Vec<&str> = if ["before", "after", "mid"].contains(rest.first().unwrap_or(&"")) { rest[1..].to_vec() } else { rest.to_vec() };
                 let commits0 = {
                     let mut o = self.obs.lock().unwrap();
@@ -230,10 +243,12 @@ impl RepRun {
                     (o.failed, o.commits)
                 };
                 let outcome = if !failed { "after" } else if commits == commits0 { "before" } else { "mid" };
-                self.stat(&format!("fault.{}", outcome));
-                self.reopen();
+                self.stat(&format!("fault.{}{}", outcome, if keep { ".same-handle" } else { "" }));
+                if !keep {
+                    self.reopen();
+                }
                 let outs = if outcome == "after" { outs } else { vec![format!("interrupted {}", outcome)] };
-                (format!("F {} {} {}", k, outcome, nl), outs)
+                (format!("F {} {} {}", ktok, outcome, nl), outs)
             }
             ["X", _n, rest @ ..] => match parse_op_groups(rest) {
                 Some(ops) => {
@@ -319,8 +334,13 @@ impl RepRun {
 
     /// generate the next line from the current state
     pub fn gen_line(&mut self, rng: &mut Rng) -> String {
+        if self.expire_next {
+            self.expire_next = false;
+            return "E".into();
+        }
         let roll = rng.below(100);
         if roll < 8 {
+            self.expire_next = rng.chance(1, 2);
             self.gen_expirable(rng)
         } else if roll < 18 {
             self.gen_pending_burst(rng)
@@ -360,10 +380,26 @@ impl RepRun {
             }
         };
         let status = *rng.pick(&["deleted", "deleted", "deleted", "completed", "pending"]);
-        let modified = match rng.below(6) {
+        let modified = match rng.below(8) {
             0 => format!("{}", now - 179 * day),
             1 => format!("{}", now - 181 * day),
             2 => "never".to_string(),
+            // numbers that parse as i64 but are no instant chrono can represent (kept), and the two
+            // ends of its range (the lower one is long ago: purged)
+            3 => rng
+                .pick(&[
+                    "-8334601228801",
+                    "-9000000000000000",
+                    "-9223372036854775808",
+                    "9223372036854775807",
+                    "8210266876800",
+                    "-8334601228800",
+                    "8210266876799",
+                    "-9223372036854775809",
+                    "-62135596801",
+                    "-1",
+                ])
+                .to_string(),
             _ => format!("{}", now - (200 + rng.below(1000) as i64) * day),
         };
         for (k, v) in [("status", status.to_string()), ("modified", modified)] {
@@ -374,8 +410,49 @@ impl RepRun {
         format!("X {} ; {}", parts.len(), parts.join(" ; "))
     }
 
+    /// one commit in which tasks enter and leave the pending state several times, interleaved with
+    /// each other (every task that ends up pending must be in the working set exactly once)
+    fn gen_flip_flop(&mut self, rng: &mut Rng) -> String {
+        let cur = self.tasks();
+        let mut parts = vec!["undo".to_string()];
+        let ids: Vec<u64> = {
+            let a = 1 + rng.below(8);
+            let mut b = 1 + rng.below(8);
+            if b == a {
+                b = a % 8 + 1;
+            }
+            vec![a, b]
+        };
+        let mut status: HashMap<u64, Option<String>> = HashMap::new();
+        for un in &ids {
+            let u = uuid_of(*un as u128);
+            match cur.get(&u) {
+                Some(t) => {
+                    status.insert(*un, t.get("status").cloned());
+                }
+                None => {
+                    parts.push(format!("create {}", un));
+                    status.insert(*un, None);
+                }
+            }
+        }
+        let n = 3 + rng.below(4);
+        for i in 0..n {
+            // a pending, a completed, b pending, a pending, ...
+            let un = if i % 3 == 2 { ids[1] } else { ids[0] };
+            let st = if i % 3 == 1 { *rng.pick(&["completed", "deleted"]) } else { *rng.pick(&["pending", "pending", "recurring"]) };
+            let old = status.get(&un).cloned().flatten();
+            parts.push(format!("update {} {} {} {} {} 0", un, enc_str("status"), fmt_opt(&old), enc_str(st), 100 + i));
+            status.insert(un, Some(st.to_string()));
+        }
+        format!("X {} ; {}", parts.len(), parts.join(" ; "))
+    }
+
     /// an accurate batch that makes several tasks pending / recurring or takes some out again
     fn gen_pending_burst(&mut self, rng: &mut Rng) -> String {
+        if rng.chance(1, 4) {
+            return self.gen_flip_flop(rng);
+        }
         let cur = self.tasks();
         let mut parts = vec!["undo".to_string()];
         let n = 1 + rng.below(4);
